@@ -24,7 +24,9 @@ of the adjacency over value signals (+ constants) resp. method ports; writer of 
 constant, a member written by an update block, a top-level input port or an output port of a placeholder (`_resolve_value_connections`
 for plain signals); writer of a method net = its callee port. `none` / `multi` if absent / ambiguous.
 Nets are computed here from the sorted dump (derived observable, not part of the theorems); so is
-`(dbuf <sig>)`: the signal is written by an `update_ff` block (`_dsl.needs_double_buffer`).
+`(dbuf <sig>)`: the signal is written by an `update_ff` block (`_dsl.needs_double_buffer`), and
+`(lvl <name> <level> <parent> <host>)` for every component, signal and method port (`get_component_level()` /
+`_dsl.level`, `get_parent_object()`, `get_host_component()`).
 -/
 namespace PV.Driver.Meta
 open PV PV.Meta
@@ -168,8 +170,18 @@ def dbufOf (M : Meta) : List String :=
     | .write b s => if ffs.contains b then some s!"(dbuf {showSig s})" else none
     | _ => none)
 
+/-- per-object hierarchy metadata `(lvl <name> <level> <parent> <host>)`: by name, the level of a component is the
+    number of segments of its path, a signal / method port sits one below its host component, which is also its parent -/
+def lvlOf (M : Meta) : List String :=
+  sortDedup (M.filterMap fun e => match e with
+    | .comp n _ =>
+      some s!"(lvl {showName n} {n.length} {if n.isEmpty then "none" else showName n.dropLast} {showName n})"
+    | .sig s _ => some s!"(lvl {showSig s} {s.1.length + 1} {showName s.1} {showName s.1})"
+    | .mport s _ => some s!"(lvl {showSig s} {s.1.length + 1} {showName s.1} {showName s.1})"
+    | _ => none)
+
 def dump (M : Meta) : String :=
-  "(" ++ " ".intercalate (sortDedup (M.map showEntry) ++ netsOf M ++ dbufOf M) ++ ")"
+  "(" ++ " ".intercalate (sortDedup (M.map showEntry) ++ netsOf M ++ dbufOf M ++ lvlOf M) ++ ")"
 
 def handle (args : List Sexp) : Option String :=
   match args with
